@@ -44,6 +44,7 @@ def descriptions(inp):
              "suit-text": {"en": {'["M", 2, 235577344, 352256]': {"suit-text-vendor-name": "Nordic", "suit-text-model-name": "m"}}},
              "suit-integrated-payloads": {"#fw": fw}})
     b2 = gen.minimal(man=copy.deepcopy(gen.MAN_DEFAULTS), alg="cose-alg-sha-512")
+    b2["SUIT_Envelope_Tagged"]["suit-manifest"]["suit-reference-uri"] = "http://example.com/\U0001D11E/zażółć/\u20ac?q=\U0001F600"     # beyond the BMP
     b2["SUIT_Envelope_Tagged"]["suit-manifest"]["suit-validate"] = [{"suit-directive-override-parameters": copy.deepcopy(gen.PARAM_DEFAULTS)},
                                                                     {"suit-directive-try-each": [[{"suit-condition-abort": []}], []]}]
     b2["SUIT_Envelope_Tagged"]["suit-authentication-wrapper"]["SuitAuthentication0"] = {"CoseSign1Tagged": {
@@ -85,7 +86,7 @@ def prepare(inp):
         with open(os.path.join(inp, f"{n}.json"), "w", encoding="utf-8") as fh:
             json.dump(ds[n], fh)
         with open(os.path.join(inp, f"{n}.yaml"), "w", encoding="utf-8") as fh:
-            yaml.safe_dump(ds[n], fh, sort_keys=False, allow_unicode=True)
+            yaml.safe_dump(ds[n], fh, sort_keys=False)
         with open(os.path.join(inp, f"{n}.suit"), "wb") as fh:
             fh.write(InputOutputMixin.prepare_suit_data(copy.deepcopy(ds[n])))
     # keys
